@@ -2,8 +2,8 @@
    transactions (ApplyTxToState over a block's transactions, then RemoveTxFromState in reverse order) and to whole
    blocks (ApplyBlockToState then RemoveBlockFromState, including the staker reward of the coinbase).
    The lifting is generic in
-     Rd   : the relation in which the delegate table is restored (equality, or equality up to the order of the funds
-            inside each pool: Proofs/Undo3.v),
+     Rd   : the relation in which the delegate table is restored (instantiated with equality; before the repair of
+            finding R21 only equality up to the order of the funds inside each pool held in general),
      Inv  : an invariant of the ledgers the block is applied to,
      Side : a side condition on each transaction, evaluated on the ledger it is applied to. *)
 From Coq Require Import Sorting.Sorted.
@@ -433,7 +433,7 @@ Qed.
 End Gen.
 
 (* ------------------------------------------------------------------------------------------------------------ *)
-(* the exact instance: delegate table restored as a list; invariant SInv /\ FPos; side condition unstake_last *)
+(* the instance: delegate table restored as a list; invariant PInv = SInv /\ FPos /\ FUniq; no side condition *)
 
 Lemma FPos_ext l l' : dlgs l' = dlgs l -> FPos l -> FPos l'.
 Proof. intros Hd HP id d f Hg. apply (HP id d f). unfold get_dlg in *. rewrite <- Hd. exact Hg. Qed.
@@ -507,81 +507,145 @@ Proof.
   apply (FPos_ext l1k l1 Hd). eapply kind_apply_FPos; eassumption.
 Qed.
 
-Definition EInv (l : ledger) : Prop := SInv l /\ FPos l.
-
-Lemma EInv_ext l l' : dlgs l' = dlgs l -> staked l' = staked l -> EInv l -> EInv l'.
-Proof. intros Hd Hs [HI HP]. split; [apply (SInv_ext l l' Hd Hs HI)|apply (FPos_ext l l' Hd HP)]. Qed.
-
-Lemma EInv_kind l t : EInv l -> wf_tx cfg t -> unstake_last l t -> kind_undo_ok cfg eq l t.
-Proof. intros [HI HP] Hwf Hl. apply kind_undo_ok_eq; assumption. Qed.
-
-Lemma EInv_tx l t h bh top l1 : EInv l -> wf_tx cfg t -> stake_pos t -> apply_tx cfg l t h bh top = Ok l1 -> EInv l1.
+(* ---- FUniq is kept by transactions ---- *)
+Lemma apply_stake_FUniq l amt id pu signer top txid l1 :
+  FUniq l -> apply_stake cfg l amt id pu signer top txid false = Ok l1 -> FUniq l1.
 Proof.
-  intros [HI HP] Hwf Hsp H. split; [eapply apply_tx_SInv; eassumption|eapply apply_tx_FPos; eassumption].
+  intros HU H. unfold apply_stake in H. opt_inv H. rename x into d. bind_inv H. bind_inv H. injection H as <-.
+  apply (FUniq_put _ l); [exact HU|eapply dlgs_stats_staked; eassumption|]. cbn [d_funds].
+  pose proof (HU id d E) as Hnd.
+  destruct (find_fund (d_funds d) signer) as [g|] eqn:Eg.
+  - guard_inv E0. opt_inv E0. injection E0 as <-. rewrite fowners_upd_some by reflexivity. exact Hnd.
+  - injection E0 as <-. unfold fowners. rewrite map_app. cbn [map f_owner].
+    apply NoDup_app_last; [exact Hnd|]. apply find_fund_none_iff. exact Eg.
 Qed.
 
-Lemma EInv_pos l bh o l1 : EInv l -> o_amt o < two64 -> apply_pos_reward l bh o = Ok l1 ->
+Lemma apply_unstake_FUniq l amt id signer top txid l1 :
+  FUniq l -> apply_unstake l amt id signer top txid false 0 = Ok l1 -> FUniq l1.
+Proof.
+  intros HU H. unfold apply_unstake in H. opt_inv H. rename x into d. opt_inv H. rename x into g.
+  guard_inv H. guard_inv H. bind_inv H. injection H as <-.
+  apply (FUniq_put _ l); [exact HU| |].
+  - match goal with Hs : stats_unstaked _ _ = Ok _ |- _ => rewrite (dlgs_stats_unstaked _ _ _ Hs) end.
+    destruct (_ && _); reflexivity.
+  - cbn [d_funds]. pose proof (HU id d E) as Hnd.
+    destruct (f_amt g - amt =? 0); [apply NoDup_upd_none; exact Hnd|].
+    rewrite fowners_upd_some by reflexivity. exact Hnd.
+Qed.
+
+Lemma kind_apply_FUniq l t st top l1k st1 : FUniq l -> kind_apply cfg l t st top = Ok (l1k, st1) -> FUniq l1k.
+Proof.
+  intros HU H. unfold kind_apply in H.
+  destruct (tx_data t) as [os|nl name id|nw pv|a id pu|a id].
+  - injection H as <- _. exact HU.
+  - destruct (tx_version t =? 2); [|injection H as <- _; exact HU]. guard_inv H. injection H as <- _.
+    apply (FUniq_put _ l); [exact HU|reflexivity|constructor].
+  - destruct (tx_version t =? 3); [|injection H as <- _; exact HU].
+    guard_inv H. guard_inv H. guard_inv H. injection H as <- _. exact HU.
+  - destruct (tx_version t =? 4); [|injection H as <- _; exact HU].
+    guard_inv H. guard_inv H. bind_inv H. injection H as <- _. eapply apply_stake_FUniq; eassumption.
+  - destruct (tx_version t =? 5); [|injection H as <- _; exact HU].
+    guard_inv H. guard_inv H. bind_inv H. injection H as <- _. eapply apply_unstake_FUniq; eassumption.
+Qed.
+
+Lemma apply_tx_FUniq l t h bh top l1 : FUniq l -> apply_tx cfg l t h bh top = Ok l1 -> FUniq l1.
+Proof.
+  intros HU H. destruct (apply_tx_staking l t h bh top l1 H) as (st & l1k & st1 & _ & Hk & Hd & _).
+  apply (FUniq_ext l1k l1 Hd). eapply kind_apply_FUniq; eassumption.
+Qed.
+
+(* the invariant of the ledgers a block is applied to *)
+Definition PInv (l : ledger) : Prop := SInv l /\ FPos l /\ FUniq l.
+
+Lemma PInv_ext l l' : dlgs l' = dlgs l -> staked l' = staked l -> PInv l -> PInv l'.
+Proof.
+  intros Hd Hs (HI & HP & HU).
+  split; [apply (SInv_ext l l' Hd Hs HI)|]. split; [apply (FPos_ext l l' Hd HP)|apply (FUniq_ext l l' Hd HU)].
+Qed.
+
+Lemma PInv_kind l t : PInv l -> wf_tx cfg t -> True -> kind_undo_ok cfg eq l t.
+Proof. intros (HI & HP & HU) Hwf _. apply kind_undo_ok_eq; assumption. Qed.
+
+Lemma PInv_tx l t h bh top l1 : PInv l -> wf_tx cfg t -> stake_pos t -> apply_tx cfg l t h bh top = Ok l1 -> PInv l1.
+Proof.
+  intros (HI & HP & HU) Hwf Hsp H.
+  split; [eapply apply_tx_SInv; eassumption|]. split; [eapply apply_tx_FPos; eassumption|eapply apply_tx_FUniq; eassumption].
+Qed.
+
+Lemma PInv_pos l bh o l1 : PInv l -> o_amt o < two64 -> apply_pos_reward l bh o = Ok l1 ->
   forall l', dlgs l1 = dlgs l' -> staked l' = staked l1 -> nget (dhist l') bh = nget (dhist l1) bh ->
   exists l2, remove_pos_reward l' bh o = Ok l2 /\
     dlgs l = dlgs l2 /\ staked l2 = staked l /\ accts l2 = accts l' /\ dhist l2 = dhist l'.
 Proof.
-  intros [HI _] Ho H l' Hd Hs Hh.
+  intros (HI & _) Ho H l' Hd Hs Hh.
   destruct (undo_pos_reward l bh o l1 HI Ho H l' (eq_sym Hd) Hs Hh) as (l2 & Hr & D & R).
   exists l2. split; [exact Hr|]. split; [symmetry; exact D|exact R].
 Qed.
 
-(* every fully unstaking transaction of the list empties a fund that is the last of its pool, on the ledger it is
-   applied to *)
-Definition unstakes_last := sides unstake_last.
+Lemma sides_true l txs h bh top : sides (fun _ _ => True) l txs h bh top.
+Proof. revert l. induction txs as [|t txs IH]; intros l; cbn [sides]; [exact I|]. split; [exact I|intros l1 _; apply IH]. Qed.
 
 Theorem undo_txs txs l h bh top fee ln fee' :
-  SInv l -> FPos l -> total_bal l < two64 -> Forall (tx_ok cfg) txs -> Forall stake_pos txs -> NoDup (map tx_id txs) ->
+  SInv l -> FPos l -> FUniq l -> total_bal l < two64 ->
+  Forall (tx_ok cfg) txs -> Forall stake_pos txs -> NoDup (map tx_id txs) ->
   (forall a, inc (acct_at l a) + nouts_sum txs < two64) ->
   (forall a, nonce (acct_at l a) + N.of_nat (length txs) < two64) ->
-  unstakes_last l txs h bh top ->
   apply_txs cfg l txs h bh top fee = Ok (ln, fee') ->
   forall l' top', leqv ln l' ->
     (forall t, In t txs -> nget (dhist l') (tx_id t) = nget (dhist ln) (tx_id t)) ->
     exists l2, remove_txs cfg l' (rev txs) bh top' = Ok l2 /\ leqv l l2 /\ dhist l2 = dhist l'.
 Proof.
-  intros HI HP Hb Hok Hsp Hnd Hinc Hnon Hside H.
-  exact (proj2 (proj2 (undo_txs_gen eq EInv unstake_last EInv_ext EInv_kind EInv_tx EInv_pos txs l h bh top fee ln fee'
-                         (conj HI HP) Hb Hok Hsp Hnd Hinc Hnon Hside H))).
+  intros HI HP HU Hb Hok Hsp Hnd Hinc Hnon H.
+  exact (proj2 (proj2 (undo_txs_gen eq PInv (fun _ _ => True) PInv_ext PInv_kind PInv_tx PInv_pos txs l h bh top fee ln fee'
+                         (conj HI (conj HP HU)) Hb Hok Hsp Hnd Hinc Hnon (sides_true l txs h bh top) H))).
 Qed.
 
-Theorem undo_block l b top_h lB :
-  cfg_ok_emission cfg = true ->
-  SInv l -> FPos l -> total_bal l + reward cfg (lb_height b) <= max_supply cfg ->
-  Forall (tx_ok cfg) (lb_txs b) -> Forall stake_pos (lb_txs b) ->
-  NoDup (map tx_id (lb_txs b)) -> ~ In (lb_hash b) (map tx_id (lb_txs b)) ->
-  (forall a, inc (acct_at l a) + nouts_sum (lb_txs b) + 4 < two64) ->
-  (forall a, nonce (acct_at l a) + N.of_nat (length (lb_txs b)) < two64) ->
-  unstakes_last l (lb_txs b) (lb_height b) (lb_hash b) top_h ->
-  apply_block cfg genesis_addr l b top_h = Ok lB ->
+(* the hypotheses of the block theorems, bundled (Props/C03.v) *)
+Definition block_hyps (l : ledger) (b : lblock) : Prop :=
+  cfg_ok_emission cfg = true /\
+  SInv l /\ FPos l /\ FUniq l /\ total_bal l + reward cfg (lb_height b) <= max_supply cfg /\
+  Forall (tx_ok cfg) (lb_txs b) /\ Forall stake_pos (lb_txs b) /\
+  NoDup (map tx_id (lb_txs b)) /\ ~ In (lb_hash b) (map tx_id (lb_txs b)) /\
+  (forall a, inc (acct_at l a) + nouts_sum (lb_txs b) + 4 < two64) /\
+  (forall a, nonce (acct_at l a) + N.of_nat (length (lb_txs b)) < two64).
+
+Lemma undo_block_both l b top_h lB :
+  block_hyps l b -> apply_block cfg genesis_addr l b top_h = Ok lB ->
+  (forall a, inc (acct_at lB a) <= inc (acct_at l a) + nouts_sum (lb_txs b) + 4 /\
+             nonce (acct_at lB a) <= nonce (acct_at l a) + N.of_nat (length (lb_txs b))) /\
   forall l' top', leqv lB l' ->
     (forall k, k = lb_hash b \/ In k (map tx_id (lb_txs b)) -> nget (dhist l') k = nget (dhist lB) k) ->
     exists l2, remove_block cfg genesis_addr l' b top' = Ok l2 /\ leqv l l2 /\ dhist l2 = dhist l'.
 Proof.
-  intros Hok HI HP Hb Htx Hsp Hnd Hbh Hinc Hnon Hside H.
-  exact (proj2 (undo_block_gen eq EInv unstake_last EInv_ext EInv_kind EInv_tx EInv_pos Hok l b top_h lB
-                  (conj HI HP) Hb Htx Hsp Hnd Hbh Hinc Hnon Hside H)).
+  intros (Hok & HI & HP & HU & Hb & Htx & Hsp & Hnd & Hbh & Hinc & Hnon) H.
+  exact (undo_block_gen eq PInv (fun _ _ => True) PInv_ext PInv_kind PInv_tx PInv_pos Hok l b top_h lB
+           (conj HI (conj HP HU)) Hb Htx Hsp Hnd Hbh Hinc Hnon
+           (sides_true l (lb_txs b) (lb_height b) (lb_hash b) top_h) H).
 Qed.
 
-(* the form of C03_undo_block_full: removal from the very ledger the application produced *)
+(* removal from any agreeing ledger (the form that can be chained) *)
+Theorem undo_block l b top_h lB :
+  block_hyps l b -> apply_block cfg genesis_addr l b top_h = Ok lB ->
+  forall l' top', leqv lB l' ->
+    (forall k, k = lb_hash b \/ In k (map tx_id (lb_txs b)) -> nget (dhist l') k = nget (dhist lB) k) ->
+    exists l2, remove_block cfg genesis_addr l' b top' = Ok l2 /\ leqv l l2 /\ dhist l2 = dhist l'.
+Proof. intros Hh H. exact (proj2 (undo_block_both l b top_h lB Hh H)). Qed.
+
+(* counters after a block *)
+Lemma apply_block_frame l b top_h lB :
+  block_hyps l b -> apply_block cfg genesis_addr l b top_h = Ok lB ->
+  forall a, inc (acct_at lB a) <= inc (acct_at l a) + nouts_sum (lb_txs b) + 4 /\
+            nonce (acct_at lB a) <= nonce (acct_at l a) + N.of_nat (length (lb_txs b)).
+Proof. intros Hh H. exact (proj1 (undo_block_both l b top_h lB Hh H)). Qed.
+
+(* the literal conclusion of C03_undo_block_full: removal from the very ledger the application produced *)
 Corollary remove_apply_block l b top_h lB :
-  cfg_ok_emission cfg = true ->
-  SInv l -> FPos l -> total_bal l + reward cfg (lb_height b) <= max_supply cfg ->
-  Forall (tx_ok cfg) (lb_txs b) -> Forall stake_pos (lb_txs b) ->
-  NoDup (map tx_id (lb_txs b)) -> ~ In (lb_hash b) (map tx_id (lb_txs b)) ->
-  (forall a, inc (acct_at l a) + nouts_sum (lb_txs b) + 4 < two64) ->
-  (forall a, nonce (acct_at l a) + N.of_nat (length (lb_txs b)) < two64) ->
-  unstakes_last l (lb_txs b) (lb_height b) (lb_hash b) top_h ->
-  apply_block cfg genesis_addr l b top_h = Ok lB ->
+  block_hyps l b -> apply_block cfg genesis_addr l b top_h = Ok lB ->
   forall top', exists l2, remove_block cfg genesis_addr lB b top' = Ok l2 /\ same_accounts l2 l /\
     dlgs l2 = dlgs l /\ (forall id, get_dlg l2 id = get_dlg l id) /\ staked l2 = staked l.
 Proof.
-  intros Hok HI HP Hb Htx Hsp Hnd Hbh Hinc Hnon Hside H top'.
-  destruct (undo_block l b top_h lB Hok HI HP Hb Htx Hsp Hnd Hbh Hinc Hnon Hside H lB top' (leqv_refl lB) ltac:(reflexivity))
+  intros Hh H top'.
+  destruct (undo_block l b top_h lB Hh H lB top' (leqv_refl lB) ltac:(reflexivity))
     as (l2 & Hr & (Hs & _ & Hd & Hst) & _).
   exists l2. split; [exact Hr|]. split; [exact Hs|]. split; [symmetry; exact Hd|].
   split; [intros id; unfold get_dlg; rewrite <- Hd; reflexivity|exact Hst].
